@@ -93,3 +93,50 @@ def log_density(X, grids, grid_weights, descriptors, weights, members, bandwidth
                 prob[i] = LSE(np.concatenate([[prob[i]], lnks]))
     prob -= np.log(np.sum(grid_weights))
     return prob
+
+
+# ---- localisation -------------------------------------------------------------------------------
+def population(cell, grid, centre, weights, sigma2):
+    """uninterpreted in the localisation obligations (the checker substitutes the same symbol
+    for this function and for the module's _local_population)"""
+
+
+def norm_kernels(bandwidth, ndim):
+    # log normalisation of each Gaussian: D log(2 pi) + log det H_j
+    return np.array([ndim * np.log(2 * np.pi) + np.linalg.slogdet(h)[1] for h in bandwidth])
+
+
+def nearest_other_grid_distance(dist):
+    # distance of every grid point to its nearest OTHER grid point
+    np.fill_diagonal(dist, np.inf)
+    return np.min(dist, axis=1)
+
+
+def tune_by_spread(cell, grid, weights, sigma2, flocal, idx, mindist):
+    # homogeneous spatial extent: localise at the distance to the nearest other grid point
+    sigma2[idx] = mindist[idx]
+    wlocal, flocal[idx] = population(cell, grid, grid[idx], weights, sigma2[idx])
+    return sigma2, flocal, wlocal
+
+
+def tune_by_points(cell, grid, weights, sigma2, flocal, idx, delta, tune, fpoints):
+    # similar populations: widen in steps of `tune` until the local population reaches the
+    # target fraction, then bisect (step tune / 2^j) until it is within delta of it; a target
+    # not above the grid point's own weight is raised to that weight + delta
+    lim = fpoints
+    if lim <= weights[idx]:
+        lim = weights[idx] + delta
+    while flocal[idx] < lim:
+        sigma2[idx] += tune
+        wlocal, flocal[idx] = population(cell, grid, grid[idx], weights, sigma2[idx])
+    j = 1
+    while True:
+        if flocal[idx] > lim:
+            sigma2[idx] -= tune / 2**j
+        else:
+            sigma2[idx] += tune / 2**j
+        wlocal, flocal[idx] = population(cell, grid, grid[idx], weights, sigma2[idx])
+        if abs(flocal[idx] - lim) < delta:
+            break
+        j += 1
+    return sigma2, flocal, wlocal
